@@ -100,6 +100,7 @@ inductive Op
   | nth (it : String) (k : Nat) | nth_back (it : String) (k : Nat) | count (it : String)
   | views (r : String) | iter_views (it : String)
   | clone_from_iter (it src : String)
+  | fill_spare (r : String) (viaSplit : Bool) (k : Nat) (val : Int)
   | size_hint (it : String) | len (it : String) | as_slice (it : String)
   | clone_iter (it itnew : String)
   | serialize (r : String)
@@ -159,6 +160,28 @@ def World.onVecReg (w : World) (r : String) (x : VM Out) : World × Out :=
     | .ok o => (w'.set r (.vec v'), o)
     | .error p => (w'.set r (.vec v'), .stopped p)
   | _ => (w, .badOp)
+
+/-- `MiniVec::<u8>::from(&str)` of `n` bytes, checked and dropped inside the operation -/
+def fromStrFill (Xb : Ctx) (n : Nat) : VM Unit := do
+  let p ← VM.lift Xb (Gen.as_mut_ptr Xb.env)
+  VM.forN n (fun i => VM.wr p (0 + i) ((List.replicate n (⟨0, 97⟩ : Elem)).getD i default))
+  VM.lift Xb (Gen.set_len Xb.env n)
+
+def fromStrProg (Xb : Ctx) (n : Nat) : VM Nat := do
+  VM.lift Xb (Gen.with_capacity Xb.env n)
+  (if n > 0 then fromStrFill Xb n else pure ())
+  let l ← VM.lift Xb (Gen.len Xb.env)
+  Vec.dropVec Xb
+  pure l
+
+/-- `Extend<&T>` for a Copy element type, checked and dropped inside the operation -/
+def extendRefProg (Xb : Ctx) (pre : Nat) (vals : List Int) : VM Nat := do
+  VM.lift Xb (Gen.with_capacity Xb.env pre)
+  VM.forN pre (fun i => Vec.push Xb ⟨0, i⟩)
+  VM.forN vals.length (fun i => Vec.push Xb ⟨0, vals.getD i 0⟩)
+  let l ← VM.lift Xb (Gen.len Xb.env)
+  Vec.dropVec Xb
+  pure l
 
 def optOut : Option Elem → Out
   | .none => .none
@@ -425,16 +448,7 @@ def step (w : World) : Op → World × Out
     -- `MiniVec::<u8>::from(&str)`: with_capacity(len); nothing else for the empty string; otherwise the
     -- bytes are copied and the length set; the temporary is dropped inside the operation
     let Xb : Ctx := { X with c := ⟨1, 1, false⟩ }
-    let (res, _, w') := runOn w {} (do
-      VM.lift Xb (Gen.with_capacity Xb.env n)
-      if n > 0 then do
-        let p ← VM.lift Xb (Gen.as_mut_ptr Xb.env)
-        VM.forN n (fun i => VM.wr p i ⟨0, 97⟩)
-        VM.lift Xb (Gen.set_len Xb.env n)
-      else pure ()
-      let l ← VM.lift Xb (Gen.len Xb.env)
-      dropVec Xb
-      pure l)
+    let (res, _, w') := runOn w {} (fromStrProg Xb n)
     (match res with
      | .ok l => (w', .fromStr l)
      | .error p => (w', .stopped p))
@@ -444,13 +458,7 @@ def step (w : World) : Op → World × Out
     -- iterator yields before its first `None` (its size_hint is never consulted); checked and dropped inside
     let Xb : Ctx := { X with c := ⟨4, 4, false⟩ }
     let vals : List Int := (it.takeWhile Option.isSome).filterMap id
-    let (res, _, w') := runOn w {} (do
-      VM.lift Xb (Gen.with_capacity Xb.env pre)
-      VM.forN pre (fun i => push Xb ⟨0, i⟩)
-      VM.forN vals.length (fun i => push Xb ⟨0, vals.getD i 0⟩)
-      let l ← VM.lift Xb (Gen.len Xb.env)
-      dropVec Xb
-      pure l)
+    let (res, _, w') := runOn w {} (extendRefProg Xb pre vals)
     (match res with
      | .ok l => (w', .fromStr l)
      | .error p => (w', .stopped p))
@@ -477,6 +485,9 @@ def step (w : World) : Op → World × Out
   -- every borrowed view of the vector (`Deref`, `AsRef`, `Borrow`, `Index`, `as_slice`, `&v` / `&mut v` iteration, `Cow`)
   -- is the slice `[as_ptr(), len())`: the harness compares them; the model has nothing to do
   | .views r => w.onVecReg r (pure .ok)
+  | .fill_spare r viaSplit k val =>
+    if k > 4096 then (w, .badOp) else
+    w.onVecReg r (do let n ← fill_spare X viaSplit k val; pure (.nums [n]))
   | .iter_views it =>
     (match w.get it with
      | some (.intoIter ..) => (w, .ok)
